@@ -109,3 +109,219 @@ Theorem C08_no_silent_loss_jsonline :
 Proof. intros. eapply no_silent_loss; eauto. Qed.
 Print Assumptions C08_no_silent_loss_jsonline.
 
+
+(* ---------------------------------------------------------------------------------------------
+   After the end, nothing.  The caller still holds the importer and the streamer when Stream has
+   returned, and may ask again.  JL.model.StreamPull.stream_loop_st is Stream.stream_loop returning
+   also the importer the loop stopped in (C07_stream_loop_st_is_stream_loop); pull_loop is the
+   hand-written ReadOne / Export loop (C07_pull_is_stream). *)
+From JL.model Require Import StreamPull.
+From JL.proofs Require Import StreamPullProofs.
+
+(* Nothing after the end.  For every scanner whose Scan() / Err() settle on a set `good` of scanner
+   states closed under Scan() — Err() is sticky, and a Scan() that returned false leaves the
+   scanner dead when Err() is nil afterwards or was non-nil before (the one exception of
+   bufio.Scanner, the Scan() that fails with ErrTooLong and leaves the over-long line's bytes to be
+   handed out as one more token, is thereby allowed) —, every importer whose `failed` flag is set
+   only if the scanner has an error (NewImporter; kept by Import and GetRow), every processor,
+   write-fault schedule, observer state and fuel:
+   if the loop of Stream RETURNED NIL — the input came to its end, or the scanner's failure was
+   handed over and tolerated —, then for the importer i' it stopped in, for ever after:
+     Import() is false and ReadOne() is (nil, nil), both leaving the importer exactly as it is
+       (so after a scanner failure was handed over once, Import is false for ever);
+     a further run of Stream's loop, with any processor and any writer, and a further run of the
+       pull loop, return nil at once: no processor call, no Write, no counter and no state changes;
+     GetRow() does not panic on its own account: it returns the scanner's error again if there is
+       one, and otherwise whatever the EMPTY token gives under the input template (Scanner.Bytes()
+       is empty after a Scan() that returned false) — for jsonline's own importer, an error. *)
+Theorem C08_nothing_after_the_end :
+  forall (R : Type) (get_row : str -> res R) (export_row : R -> res str)
+         (Sc : Type) (s_scan : Sc -> option str * Sc) (s_err : Sc -> option serr) (good : Sc -> Prop)
+         (wf : nat -> option Z) (proc : nat -> option eclass -> option eclass)
+         (fuel : nat) (i : importer Sc) (o : ost) (i' : importer Sc) (o' : ost),
+  (forall sc, good sc -> good (snd (s_scan sc))) ->
+  (forall sc, good sc -> s_err sc <> None -> s_err (snd (s_scan sc)) <> None) ->
+  (forall sc sc', good sc -> s_scan sc = (None, sc') ->
+                  s_err sc' = None \/ s_err sc <> None -> s_scan sc' = (None, sc')) ->
+  good (i_sc i) -> (i_failed i = true -> s_err (i_sc i) <> None) ->
+  stream_loop_st R get_row export_row Sc s_scan s_err wf proc fuel i o = (ROk, i', o') ->
+  Import Sc s_scan s_err i' = (false, i') /\
+  ReadOne R get_row Sc s_scan s_err i' = (None, i') /\
+  (forall wf2 proc2 f o2,
+     stream_loop_st R get_row export_row Sc s_scan s_err wf2 proc2 (S f) i' o2 = (ROk, i', o2)) /\
+  (forall wf2 proc2 f o2,
+     stream_loop R get_row export_row Sc s_scan s_err wf2 proc2 (S f) i' o2 = (ROk, o2)) /\
+  (forall wf2 f o2,
+     pull_loop R get_row export_row Sc s_scan s_err wf2 (S f) i' o2 = (ROk, i', o2)) /\
+  GetRow R get_row Sc s_err i' =
+    (match s_err (i_sc i') with
+     | Some e => GrErr (eclass_of_serr e)
+     | None => match get_row [] with
+               | Ok r => GrOk r
+               | Err s => GrErr (EcImport s)
+               | Panic => GrPanic
+               | Fuel => GrFuel
+               end
+     end, i').
+Proof. exact nothing_after_the_end. Qed.
+Print Assumptions C08_nothing_after_the_end.
+
+(* Both scanner models settle: the chunk-free specification on the states in which the reader's
+   error leaves no buffered bytes (every state reached from a new scanner; fault_drained sc :=
+   match sc with Stopped b SRead => b = [] | _ => True end), the operational scanner on the states
+   that satisfy the invariant of the chunking theorem and whose abstraction is such a state. *)
+Theorem C08_scanners_settle :
+  forall C : Z,
+  ((forall sc, fault_drained sc -> fault_drained (snd (scan C sc))) /\
+   (forall sc, fault_drained sc -> sc_err sc <> None -> sc_err (snd (scan C sc)) <> None) /\
+   (forall sc sc', fault_drained sc -> scan C sc = (None, sc') ->
+                   sc_err sc' = None \/ sc_err sc <> None -> scan C sc' = (None, sc'))) /\
+  ((forall c, cgood C c -> cgood C (snd (cscan C c))) /\
+   (forall c, cgood C c -> c_public_err c <> None -> c_public_err (snd (cscan C c)) <> None) /\
+   (forall c c', cgood C c -> cscan C c = (None, c') ->
+                 c_public_err c' = None \/ c_public_err c <> None -> cscan C c' = (None, c'))).
+Proof. exact (fun C => conj (scan_settles C) (cscan_settles C)). Qed.
+Print Assumptions C08_scanners_settle.
+
+(* Hence for whole runs.  Whenever Stream returns nil — any input, capacity, reader-fault offset,
+   write-fault schedule, processor —, the run (StreamSt: the same run, handing back its final
+   importer and observer state) stopped in a state after which nothing happens, in all the senses
+   above. *)
+Theorem C08_nothing_after_the_end_run :
+  forall (R : Type) (get_row : str -> res R) (export_row : R -> res str)
+         (wf : nat -> option Z) (proc : nat -> option eclass -> option eclass)
+         (C : Z) (s : str) (k : option Z) (evs : list event),
+  Stream R get_row export_row wf proc C s k = (ROk, evs) ->
+  exists i' o',
+    StreamSt R get_row export_row wf proc C s k = (ROk, i', o') /\ rev (o_trace o') = evs /\
+    Import sstate (scan C) sc_err i' = (false, i') /\
+    ReadOne R get_row sstate (scan C) sc_err i' = (None, i') /\
+    (forall wf2 proc2 f o2,
+       stream_loop_st R get_row export_row sstate (scan C) sc_err wf2 proc2 (S f) i' o2 = (ROk, i', o2)) /\
+    (forall wf2 proc2 f o2,
+       stream_loop R get_row export_row sstate (scan C) sc_err wf2 proc2 (S f) i' o2 = (ROk, o2)) /\
+    (forall wf2 f o2,
+       pull_loop R get_row export_row sstate (scan C) sc_err wf2 (S f) i' o2 = (ROk, i', o2)) /\
+    GetRow R get_row sstate sc_err i' =
+      (match sc_err (i_sc i') with
+       | Some e => GrErr (eclass_of_serr e)
+       | None => match get_row [] with
+                 | Ok r => GrOk r
+                 | Err s => GrErr (EcImport s)
+                 | Panic => GrPanic
+                 | Fuel => GrFuel
+                 end
+       end, i').
+Proof. exact nothing_after_the_end_run. Qed.
+Print Assumptions C08_nothing_after_the_end_run.
+
+(* the same over the operational scanner, for every chunking of the reader *)
+Theorem C08_nothing_after_the_end_run_chunked :
+  forall (R : Type) (get_row : str -> res R) (export_row : R -> res str)
+         (wf : nat -> option Z) (proc : nat -> option eclass -> option eclass)
+         (C : Z) (s : str) (k : option Z) (chunks : list Z) (evs : list event),
+  match k with Some x => 0 <= x | None => True end ->
+  StreamChunked R get_row export_row wf proc C s k chunks = (ROk, evs) ->
+  exists i' o',
+    StreamChunkedSt R get_row export_row wf proc C s k chunks = (ROk, i', o') /\ rev (o_trace o') = evs /\
+    Import cstate (cscan C) c_public_err i' = (false, i') /\
+    ReadOne R get_row cstate (cscan C) c_public_err i' = (None, i') /\
+    (forall wf2 proc2 f o2,
+       stream_loop_st R get_row export_row cstate (cscan C) c_public_err wf2 proc2 (S f) i' o2 = (ROk, i', o2)) /\
+    (forall wf2 proc2 f o2,
+       stream_loop R get_row export_row cstate (cscan C) c_public_err wf2 proc2 (S f) i' o2 = (ROk, o2)) /\
+    (forall wf2 f o2,
+       pull_loop R get_row export_row cstate (cscan C) c_public_err wf2 (S f) i' o2 = (ROk, i', o2)) /\
+    GetRow R get_row cstate c_public_err i' =
+      (match c_public_err (i_sc i') with
+       | Some e => GrErr (eclass_of_serr e)
+       | None => match get_row [] with
+                 | Ok r => GrOk r
+                 | Err s => GrErr (EcImport s)
+                 | Panic => GrPanic
+                 | Fuel => GrFuel
+                 end
+       end, i').
+Proof. exact nothing_after_the_end_run_chunked. Qed.
+Print Assumptions C08_nothing_after_the_end_run_chunked.
+
+(* Exactly when a further run does nothing.  A run the PROCESSOR stopped (Stream returned its
+   error) stops where it is; in general input remains and a further run goes on with it
+   (StreamPullProofs.PullExamples.ex_stopped_early_goes_on).  For every scanner, importer state,
+   processor, writer and observer state: a run does nothing — returns nil without any event —
+   if Import() says false, and if Import() says true it calls the processor at least once, unless
+   the per-line functions panic or run out of model fuel before. *)
+Theorem C08_a_run_does_nothing_iff_import_is_false :
+  forall (R : Type) (get_row : str -> res R) (export_row : R -> res str)
+         (Sc : Type) (s_scan : Sc -> option str * Sc) (s_err : Sc -> option serr)
+         (wf : nat -> option Z) (proc : nat -> option eclass -> option eclass)
+         (f : nat) (i : importer Sc) (o : ost),
+  (fst (Import Sc s_scan s_err i) = false ->
+   stream_loop_st R get_row export_row Sc s_scan s_err wf proc (S f) i o
+   = (ROk, snd (Import Sc s_scan s_err i), o)) /\
+  (fst (Import Sc s_scan s_err i) = true ->
+   forall r i' o', stream_loop_st R get_row export_row Sc s_scan s_err wf proc (S f) i o = (r, i', o') ->
+   r = RPanic \/ r = RFuel \/ (o_calls o < o_calls o')%nat).
+Proof. exact run_does_nothing_iff. Qed.
+Print Assumptions C08_a_run_does_nothing_iff_import_is_false.
+
+(* One stopped run is at its end all the same: the processor stopped it ON THE READER'S FAILURE
+   (the last event is the call that carried io:read, and Stream returned what the processor
+   returned).  Then the next Import() is false, a further run returns nil without any event, and
+   from there nothing happens for ever.  (After ErrTooLong this is NOT so: the next run delivers
+   io:toolong once more, StreamPullProofs.PullExamples.ex_too_long_fatal_twice, and only the third
+   run finds the end.) *)
+Theorem C08_fatal_read_failure_is_the_end :
+  forall (R : Type) (get_row : str -> res R) (export_row : R -> res str)
+         (wf : nat -> option Z) (proc : nat -> option eclass -> option eclass)
+         (C : Z) (s : str) (k : option Z) (x : eclass) (evs : list event),
+  Stream R get_row export_row wf proc C s k = (RErr x, evs ++ [EvCall (Some EcRead)]) ->
+  exists i' o' i'',
+    StreamSt R get_row export_row wf proc C s k = (RErr x, i', o') /\
+    rev (o_trace o') = evs ++ [EvCall (Some EcRead)] /\
+    Import sstate (scan C) sc_err i' = (false, i'') /\
+    (forall wf2 proc2 f o2,
+       stream_loop_st R get_row export_row sstate (scan C) sc_err wf2 proc2 (S f) i' o2 = (ROk, i'', o2)) /\
+    Import sstate (scan C) sc_err i'' = (false, i'') /\
+    ReadOne R get_row sstate (scan C) sc_err i'' = (None, i'') /\
+    (forall wf2 proc2 f o2,
+       stream_loop_st R get_row export_row sstate (scan C) sc_err wf2 proc2 (S f) i'' o2 = (ROk, i'', o2)) /\
+    (forall wf2 proc2 f o2,
+       stream_loop R get_row export_row sstate (scan C) sc_err wf2 proc2 (S f) i'' o2 = (ROk, o2)) /\
+    (forall wf2 f o2,
+       pull_loop R get_row export_row sstate (scan C) sc_err wf2 (S f) i'' o2 = (ROk, i'', o2)) /\
+    GetRow R get_row sstate sc_err i'' =
+      (match sc_err (i_sc i'') with
+       | Some e => GrErr (eclass_of_serr e)
+       | None => match get_row [] with
+                 | Ok r => GrOk r
+                 | Err s => GrErr (EcImport s)
+                 | Panic => GrPanic
+                 | Fuel => GrFuel
+                 end
+       end, i'').
+Proof. exact fatal_read_is_an_end_run. Qed.
+Print Assumptions C08_fatal_read_failure_is_the_end.
+
+(* A concrete stream, "{}\n1\r\n\nx\n{}" (toy templates: "1" rejected on input, "x" on output; a
+   blank line is a line), the second Write failing after 0 bytes, the reader failing after 8 bytes
+   (inside the fourth line), a tolerant processor: Stream returns nil after the trace shown; then
+   Import is false, ReadOne gives (nil, nil), GetRow gives the reader's error again, and a second
+   run — here with the default processor and a writer that would fail at once — does nothing. *)
+Example C08_nothing_after_the_end_example :
+  let wf := fun j : nat => if Nat.eqb j 1 then Some 0 else None in
+  let ex_get := StreamProofs.Examples.ex_get in
+  let ex_exp := StreamProofs.Examples.ex_exp in
+  let '(r, i', o') := StreamSt str ex_get ex_exp wf NoFailureProcessor 8 StreamProofs.Examples.ex_s (Some 8) in
+  r = ROk /\
+  rev (o_trace o') = [EvCall None; EvWrite [123;125;10] 3;
+                      EvCall (Some (EcImport ErrNoWrap));
+                      EvCall None; EvWrite [10] 0; EvCall (Some EcWrite);
+                      EvCall (Some EcRead)] /\
+  i_failed i' = true /\
+  Import sstate (scan 8) sc_err i' = (false, i') /\
+  ReadOne str ex_get sstate (scan 8) sc_err i' = (None, i') /\
+  GetRow str ex_get sstate sc_err i' = (GrErr EcRead, i') /\
+  stream_loop_st str ex_get ex_exp sstate (scan 8) sc_err (fun _ => Some 0) DefaultProcessor 5 i' o' = (ROk, i', o') /\
+  pull_loop str ex_get ex_exp sstate (scan 8) sc_err (fun _ => Some 0) 5 i' o' = (ROk, i', o').
+Proof. vm_compute. repeat split. Qed.
